@@ -17,7 +17,8 @@ def run(chk):
                 'included). (3) the same for a kill by interrupt: '
                 'KeyboardInterrupt (Ctrl-C) raised immediately before operation k, and on the return of operation k (where '
                 'Python delivers a signal that arrived during the system call), so that exception handlers and finally '
-                'blocks run before the process ends. distinct = (scenario, kind of kill, k)')
+                'blocks run before the process ends; the same with a real SIGTERM (SIGHUP in the thorough tier), so that a handler '
+                'the program installs runs. distinct = (scenario, kind of kill, k)')
     chk.assumptions += opcommon.ASSUME
     opcommon.model_runs(chk, [
         ('crash_plain', dict(procs=('p1',), cands=('t1',), slots=('n', 'n1'), prepay=[('t1', 'n')])),
@@ -30,12 +31,13 @@ def run(chk):
         n, ops, ex = opdrivers.baseline_ops(scen, chk.seed)
         if ex != 0:
             chk.notes.append('the uninterrupted run of %s exits %s' % (scen, ex))
-        out = tt.pmap(opdrivers.run_crash, [(scen, k, chk.seed, mode) for mode in ('kill', 'intr', 'intr_after') for k in range(1, n + 2)])
+        modes = ('kill', 'intr', 'intr_after', 'term', 'term_after') + (('hup',) if not quick else ())
+        out = tt.pmap(opdrivers.run_crash, [(scen, k, chk.seed, mode) for mode in modes for k in range(1, n + 2)])
         for o in out:
             chk.traces += 1
             chk.count('crash' if o['mode'] == 'kill' else 'interrupt', 1, key='%s|%s|%d' % (scen, o['mode'], o['k']), nontrivial=True)
             items.append(o)
-        for mode in ('kill', 'intr', 'intr_after'):
+        for mode in modes:
             if sum(1 for o in out if o['killed'] and o['mode'] == mode) < n:
                 chk.machinery.append('%s: only %d of %d %s points were reached' % (
                     scen, sum(1 for o in out if o['killed'] and o['mode'] == mode), n, mode))
@@ -43,7 +45,7 @@ def run(chk):
                     'verdict': 'every post-kill state satisfies InfoBeforePayload and NothingLost'}, limit=4)
     opcommon.judge(chk, 'crash', items, lambda it: it['obs'], lambda it: '%s%s:%s' % (it['scen'], '' if it['mode'] == 'kill' else ':' + it['mode'], (it['at'][0] or 'end')),
                    lambda it: ['InfoBeforePayload', 'NothingLost', 'NoOverwrite', 'UniqueOwnership'],
-                   what_of=lambda it: 'scenario %s %s operation %s (%s): %s' % (it['scen'], {'kill': 'killed before', 'intr': 'interrupted (Ctrl-C) before', 'intr_after': 'interrupted (Ctrl-C) on return of'}[it['mode']], it['k'], it['at'], it['obs']['state']))
+                   what_of=lambda it: 'scenario %s %s operation %s (%s): %s' % (it['scen'], {'kill': 'killed before', 'intr': 'interrupted (Ctrl-C) before', 'intr_after': 'interrupted (Ctrl-C) on return of', 'term': 'sent SIGTERM before', 'term_after': 'sent SIGTERM on return of', 'hup': 'sent SIGHUP before'}[it['mode']], it['k'], it['at'], it['obs']['state']))
     # design conformance, copy path included: the distinct on-disk states of each uninterrupted run (every operation a
     # lock-step point) form a behaviour of PutOps.tla (PutStateTrace).  A rejection is reported as DRIFT, not as a violation:
     # the property itself is decided program-free by the invariants on the post-kill states above.
